@@ -12,7 +12,8 @@
 //!              single page, every PageRange form;
 //!  * `reorder` every sequence of length 1..=n, reverse, every swap(i,j), every move(i,j);
 //!  * `rotate`  every angle (enum and from_degrees incl. negative / >360) x every page range
-//!              form (every subset as a List, All, Single, Range); thorough tier also every
+//!              form (every subset as a List in every order and with repeated indices, All,
+//!              Single, Range); thorough tier also every
 //!              /Rotate assignment over {0,90,-90,450}^3 x every angle x every page subset;
 //!  * `merge`   every ordered pair of sources x a page-range menu on each input;
 //!  * `merge-of-split` every partitioning split mode followed by a merge of the parts.
@@ -613,6 +614,7 @@ pub fn run(rep: &mut Report) {
     rep.assume("move(from,to) means: the moved page ends at index `to`, all other pages keep their relative order; SplitAt(points) with sorted interior points p1<p2<.. cuts before each point");
     rep.assume("content is compared after replacing each resource-name operand by the resource it names, so a resource key renamed consistently in /Resources and in the content (the library does this when a source font key collides with a font the writer injects) is not a difference");
     rep.assume("extra /Resources entries in the output under names the source does not use are tolerated (counted in coverage.extra_resource_entries_tolerated); /ProcSet may be dropped (obsolete, ISO 32000-1 14.2)");
+    rep.assume("a PageRange::List given to rotate denotes the set of its indices: order is irrelevant and a repeated index rotates the page once");
     rep.assume("invalid parameters (ChunkSize(0), out-of-range indices, empty page order) are outside the property and not enumerated");
 
     let dir = vx::verif_root().join(".scratch").join(format!("C16-{}", std::process::id()));
@@ -886,6 +888,18 @@ pub fn run(rep: &mut Report) {
         let mut menu: Vec<(Option<PageRange>, Vec<usize>, String)> = subs.iter().map(|s| (Some(PageRange::List(s.clone())), s.clone(), format!("List({s:?})"))).collect();
         for (r, idx, l) in range_menu(n, 0) {
             menu.push((Some(r), idx, l));
+        }
+        // every index sequence of length 2..=n that is not an ascending subset: unsorted
+        // permutations of every subset and lists with repeated indices (a page listed twice is
+        // rotated once: the list denotes a set of pages)
+        for seq in sequences(n, n.min(3)) {
+            if seq.windows(2).all(|w| w[0] < w[1]) {
+                continue;
+            }
+            let mut set = seq.clone();
+            set.sort();
+            set.dedup();
+            menu.push((Some(PageRange::List(seq.clone())), set, format!("List({seq:?})")));
         }
         menu.push((None, (0..n).collect(), "rotate_all_pages".into()));
         let (range, rotated, rlabel) = &menu[c.choose("pages", menu.len())];
